@@ -42,6 +42,7 @@ result_t BaseDevice::startArbitration(symbol_t masterAddress) {
     if (masterAddress != SYN) {
       return RESULT_ERR_ARB_RUNNING;  // should not occur
     }
+    cancelRunningArbitration(nullptr);  // give up the pending check as well, its request is no longer waiting for it
     return RESULT_OK;
   }
   m_arbitrationMaster = masterAddress;
